@@ -61,6 +61,24 @@ def _rewrite_errs(text: str, rep: str):
     return text, cnt
 
 
+def _strip_attrs(text: str):
+    """R-attrs: remove every `#[...]` / `#![...]` attribute inside the item (serde/clap/derive helper
+    attributes mean nothing without their proc macros).  Line count preserved."""
+    cnt = 0
+    pos = 0
+    while True:
+        m = mask(text)
+        mm = re.compile(r"#!?\[").search(m, pos)
+        if not mm:
+            break
+        end = match_brace(m, mm.end() - 1) + 1
+        old = text[mm.start():end]
+        text = text[:mm.start()] + "\n" * old.count("\n") + text[end:]
+        pos = mm.start()
+        cnt += 1
+    return text, cnt
+
+
 def _rewrite_logs(text: str):
     """R-log: statements `trace!/debug!/info!/warn!/error!(..);` are removed (line count preserved)."""
     cnt = 0
@@ -99,6 +117,14 @@ class Unit:
     block_sig: str = ""               # wrapper fn header for the block (free vars as params)
     block_tail: str = ""              # closing expression, e.g. "(max_unused, max_repack)"
     fn_name: Optional[str] = None     # name of the emitted function (default: derived from anchor)
+    # split units only (kind="split"): the body is cut at the given statement anchors into consecutive
+    # segments that together are exactly the body; each segment becomes its own function with its own
+    # contract and a generated driver calls them in order (modular proof of a long function)
+    splits: List[str] = field(default_factory=list)        # text at which segment k+1 starts
+    seg_contracts: List[str] = field(default_factory=list)  # one per segment
+    seg_call: str = ""            # e.g. "self.{name}(config)"
+    seg_ok: str = "Ok(())"        # value a non-final segment returns when it falls through
+    seg_attrs: str = ""
     canary: str = ""              # proof fn text `requires <pre> ensures false` (must FAIL)
     functions: List[str] = field(default_factory=list)  # repo functions this unit puts under contract (for evidence)
 
@@ -114,9 +140,11 @@ class Piece:
 
 def _apply_rewrites(text: str, rws: List[Rw], unit: str, log: list) -> str:
     for rw in rws:
-        if rw.kind in ("err", "log"):
+        if rw.kind in ("err", "log", "attrs"):
             if rw.kind == "err":
                 text, cnt = _rewrite_errs(text, rw.rep or "verr()")
+            elif rw.kind == "attrs":
+                text, cnt = _strip_attrs(text)
             else:
                 text, cnt = _rewrite_logs(text)
             if (cnt == 0 and not rw.optional) or (rw.count is not None and cnt != rw.count and not (rw.optional and cnt == 0)):
@@ -216,9 +244,14 @@ def extract_unit(u: Unit, rewrite_log: list) -> List[Piece]:
         pieces.append(Piece("\n" + u.block_tail + "\n}\n", "spec", label=lab + ":block_tail"))
         return pieces
 
+    if u.kind == "split":
+        return _extract_split(u, src, rewrite_log)
+
     a, bo, bc = locate_item(src, u.anchor, u.within, u.name)
     sig = src[a:bo]
     sig = _apply_rewrites(sig, [r for r in u.rewrites if r.sig], u.name, rewrite_log)
+    # visibility modifiers are dropped (single-module output; declared in DESIGN.md 2.1)
+    sig = re.sub(r"^pub(\([^)]*\))?\s+", "", sig)
     if u.ret_name:
         sig = _name_return(sig, u.ret_name, u.name)
     body = src[bo:bc + 1]
@@ -233,6 +266,74 @@ def extract_unit(u: Unit, rewrite_log: list) -> List[Piece]:
         pieces.append(Piece(u.contract.rstrip() + "\n", "spec", label=lab + ":contract"))
     pieces += _splice_body(u, body, u.file, line_of(src, bo))
     pieces.append(Piece("\n", "glue"))
+    if u.wrap_close:
+        pieces.append(Piece(u.wrap_close + "\n", "glue"))
+    return pieces
+
+
+def _extract_split(u: Unit, src: str, rewrite_log: list) -> List[Piece]:
+    """Cut the body of a function at statement anchors.  Segment texts are consecutive slices of the
+    body, so their concatenation IS the body (nothing dropped, nothing duplicated); segment k is
+    emitted as `fn <name>_seg<k>` with the function's own parameter list, a non-final segment ends
+    with `seg_ok`; the driver `fn <name>` is `seg0?; seg1?; ...; segN`."""
+    a, bo, bc = locate_item(src, u.anchor, u.within, u.name)
+    sig = src[a:bo]
+    sig = _apply_rewrites(sig, [r for r in u.rewrites if r.sig], u.name, rewrite_log)
+    sig = re.sub(r"^pub(\([^)]*\))?\s+", "", sig)
+    if u.ret_name:
+        sig = _name_return(sig, u.ret_name, u.name)
+    inner_lo, inner_hi = bo + 1, bc            # body without its outer braces
+    m = mask(src)
+    cuts = [inner_lo]
+    for sp in u.splits:
+        k = find_unique(m, sp, "%s (split anchor)" % u.name, inner_lo, inner_hi)
+        k = src.rfind("\n", 0, k) + 1            # start of that line
+        if k <= cuts[-1]:
+            raise LostAnchor("%s: split anchors out of order: %r" % (u.name, sp))
+        # a cut must be at brace depth 0 of the body
+        depth = m.count("{", inner_lo, k) - m.count("}", inner_lo, k)
+        if depth != 0:
+            raise LostAnchor("%s: split anchor %r is nested inside a block" % (u.name, sp))
+        cuts.append(k)
+    cuts.append(inner_hi)
+    nseg = len(cuts) - 1
+    if len(u.seg_contracts) != nseg:
+        raise LostAnchor("%s: %d segments but %d segment contracts" % (u.name, nseg, len(u.seg_contracts)))
+    fn_name = re.search(r"fn\s+(\w+)", sig).group(1)
+    pieces: List[Piece] = []
+    if u.wrap_open:
+        pieces.append(Piece(u.wrap_open + "\n", "glue"))
+    body_rws = [r for r in u.rewrites if not r.sig]
+    for k in range(nseg):
+        seg_src = src[cuts[k]:cuts[k + 1]]
+        # rewrites are applied per segment; a rewrite may match in some segments only
+        seg_log = []
+        seg_rws = [Rw(r.pat, r.rep, None, r.regex, r.why, r.sig, True, r.kind) for r in body_rws]
+        seg_txt = _apply_rewrites(seg_src, seg_rws, "%s_seg%d" % (u.name, k), seg_log)
+        rewrite_log += [l for l in seg_log if l["matches"]]
+        seg_sig = re.sub(r"fn\s+%s\b" % fn_name, "fn %s_seg%d" % (fn_name, k), sig, count=1)
+        if u.seg_attrs:
+            pieces.append(Piece(u.seg_attrs + "\n", "spec", label="%s:seg%d:attrs" % (u.name, k)))
+        pieces.append(Piece(seg_sig.rstrip() + "\n", "src", u.file, line_of(src, a)))
+        pieces.append(Piece(u.seg_contracts[k].rstrip() + "\n", "spec", label="%s:seg%d:contract" % (u.name, k)))
+        pieces.append(Piece("{\n", "glue"))
+        pieces.append(Piece(seg_txt, "src", u.file, line_of(src, cuts[k])))
+        if k < nseg - 1:
+            pieces.append(Piece("\n        " + u.seg_ok + "\n", "spec", label="%s:seg%d:fallthrough" % (u.name, k)))
+        pieces.append(Piece("\n}\n", "glue"))
+    # every declared rewrite must have matched somewhere in the body
+    whole = src[inner_lo:inner_hi]
+    _apply_rewrites(whole, body_rws, u.name, [])
+    # driver
+    pieces.append(Piece(sig.rstrip() + "\n", "src", u.file, line_of(src, a)))
+    if u.contract.strip():
+        pieces.append(Piece(u.contract.rstrip() + "\n", "spec", label=u.name + ":contract"))
+    drv = "{\n"
+    for k in range(nseg):
+        call = u.seg_call.format(name="%s_seg%d" % (fn_name, k))
+        drv += "        %s%s\n" % (call, "?;" if k < nseg - 1 else "")
+    drv += "}\n"
+    pieces.append(Piece(drv, "spec", label=u.name + ":driver"))
     if u.wrap_close:
         pieces.append(Piece(u.wrap_close + "\n", "glue"))
     return pieces
